@@ -16,10 +16,12 @@ def sh(cmd, cwd=None, env=None, timeout=1200):
                           timeout=timeout)
 
 
+START = int(os.environ.get("SEED_START", "1"))  # number of the first kept change (m<START>, ...)
+
 for pid in sys.argv[1:]:
     src = f"/tmp/mut_{pid}"
     meta = json.load(open(os.path.join(src, "meta.json")))
-    for i, m in enumerate(meta["mutations"], 1):
+    for i, m in enumerate(meta["mutations"], START):
         tree = f"/tmp/confirm_{pid}_{i}"
         sh(f"git -C /repo worktree remove --force {tree}")
         sh(f"git -C /repo worktree add -q --detach {tree} HEAD")
